@@ -2,15 +2,24 @@
 # usage: run.sh <ID> [quick|thorough]   |   run.sh replay <file>   |   run.sh build
 # Rebuilds the checker against /repo's CURRENT working tree (the module
 # replaces github.com/onheap/eval with /repo) and runs it.
+# VERIF_REPO=<dir> (development aid only, never used by MANIFEST commands)
+# builds against another checkout of the library instead of /repo.
 set -u
 export GOFLAGS=-mod=mod GOPROXY=off GOSUMDB=off GOTOOLCHAIN=local CGO_ENABLED=0
 ROOT="$(cd "$(dirname "$0")" && pwd)"
 export VERIF_ROOT="${VERIF_ROOT:-$ROOT}"
 mkdir -p "$ROOT/.bin"
 BIN="$ROOT/.bin/check.$$"
-trap 'rm -f "$BIN"' EXIT
-if ! (cd "$ROOT/mc" && go build -o "$BIN" ./cmd/check) ; then
-  echo "BUILD FAILED: the checker does not build against /repo's working tree" >&2
+MODARG=""
+trap 'rm -f "$BIN" "$ROOT/.bin/go.$$.mod" "$ROOT/.bin/go.$$.sum"' EXIT
+if [ -n "${VERIF_REPO:-}" ]; then
+  sed "s#=> /repo#=> ${VERIF_REPO}#" "$ROOT/mc/go.mod" > "$ROOT/.bin/go.$$.mod"
+  : > "$ROOT/.bin/go.$$.sum"
+  MODARG="-modfile=$ROOT/.bin/go.$$.mod"
+  export VERIF_MODFILE="$ROOT/.bin/go.$$.mod"
+fi
+if ! (cd "$ROOT/mc" && go build $MODARG -o "$BIN" ./cmd/check) ; then
+  echo "BUILD FAILED: the checker does not build against the library's working tree" >&2
   exit 2
 fi
 if [ "${1:-}" = "build" ]; then exit 0; fi
